@@ -377,6 +377,12 @@ def access_path(e):
         elif k == 'call' and e[1] in ('std::option::Option::take', 'std::mem::take') and e[2]:
             steps.append('!take')
             e = e[2][0]
+        elif k == 'call' and e[1] == 'std::iter::Iterator::flatten' and e[2]:
+            # an element of flatten(I) is the payload of an element of I
+            if steps and steps[-1] == '[]':
+                steps.pop()
+                steps.extend(['0', 'as Some', '[]'])
+            e = e[2][0]
         else:
             break
     steps.reverse()
